@@ -47,7 +47,12 @@ def cover(S):
 
 
 def walk_invariant(ctx, hts, history):
-    from ural.classes.trie_dict import NULL
+    try:
+        from ural.classes.trie_dict import NULL
+    except ImportError:  # the sentinel was renamed: the inner structure is not the one this walk knows
+        ctx.count("invariant-root-absent")
+        ctx.count("invariant-walks:not-applicable")
+        return
 
     trie = getattr(hts, "_HostnameTrieSet__trie", None)
     root = getattr(trie, "_TrieDict__root", None) if trie is not None else None
